@@ -81,8 +81,17 @@ pub fn run(out_prefix: &str, shards: usize, seed: u64, scale: usize) -> PStats {
     let mut st = PStats { contexts: 0, events: 0 };
     let mut rg = gen::rng(seed, 0x9AC0_0001);
     let mut shard = 0usize;
-    for i in 0..(24 * scale) {
-        let pats = packed_lists(&mut rg, i);
+    for i in 0..(10 * scale) {
+        let mut pats = packed_lists(&mut rg, i);
+        // the fingerprint length is min(4, shortest pattern): cycle the shortest length
+        // through 1, 2, 3, 4, 5 by extending the patterns that are too short
+        let want_min = 1 + i % 5;
+        for p in pats.iter_mut() {
+            while p.len() < want_min {
+                let b = p[p.len() - 1].wrapping_add(p.len() as u8 * 17);
+                p.push(b);
+            }
+        }
         for mk in ["lf", "ll"] {
             for variant in VARIANTS {
                 let s = guarded(|| build(&pats, mk, variant));
@@ -100,11 +109,20 @@ pub fn run(out_prefix: &str, shards: usize, seed: u64, scale: usize) -> PStats {
                 // haystack lengths around the vector widths; a planted match at every offset
                 let alpha = gen::alphabet_of(&pats, false);
                 let filler: Vec<u8> = alpha.iter().map(|&b| b ^ 0x10).chain(alpha.iter().map(|&b| b ^ 0x01)).collect();
-                let lens: Vec<usize> = if scale > 1 { (0..=70).collect() } else { vec![0, 1, 2, 3, 15, 16, 17, 18, 19, 20, 31, 32, 33, 34, 35, 36, 47, 48, 49, 64, 65, 67] };
+                // lengths around the vector widths (16 / 32) plus the fingerprint length
+                let lens: Vec<usize> = if scale > 1 { (0..=70).collect() } else {
+                    (0..=4).chain(15..=21).chain(31..=38).chain(47..=51).chain(63..=69).collect()
+                };
                 for &len in &lens {
                     let p = &pats[rg.gen_range(0..pats.len())];
+                    // a planted match at every offset that is near a window boundary
+                    // (relative to the start AND to the end), all offsets when thorough
                     let offs: Vec<usize> = if len >= p.len() {
-                        if scale > 1 || len <= 20 { (0..=(len - p.len())).collect() } else { (0..=(len - p.len())).step_by(3).chain(std::iter::once(len - p.len())).collect() }
+                        let last = len - p.len();
+                        (0..=last).filter(|&o| {
+                            scale > 1 || len <= 20 || o % 16 <= 2 || o % 16 >= 14
+                                || (len - o) % 16 <= 4 || last - o <= 3
+                        }).collect()
                     } else { vec![0] };
                     for off in offs {
                         let mut h: Vec<u8> = (0..len).map(|_| filler[rg.gen_range(0..filler.len())]).collect();
